@@ -36,14 +36,14 @@ def plan(tier, seed):
     ops = gen.INT_OPS
     jobs = []
     if tier == 'quick':
-        flat_ccs = ['gcc-O0', 'clang-O2', 'gcc-O1-nobuiltin', 'clang-O1-nobuiltin']
+        flat_ccs = ['gcc-O0-gnu89', 'clang-O2', 'gcc-O1-nobuiltin', 'clang-O1-nobuiltin', 'gcc-O1-uchar']
         nrandom, full = 3000, True
         nslices = 8
         ncases, nexpr = 60, 32
-        expr_ccs = ['gcc-O0', 'clang-O2', 'gcc-O2', 'clang-O0']
+        expr_ccs = ['gcc-O0', 'clang-O2-gnu89', 'gcc-O2', 'clang-O0', 'gcc-O1-uchar']
     else:
         flat_ccs = ['gcc-O0', 'gcc-O2', 'gcc-O3', 'clang-O0', 'clang-O2', 'clang-O3', 'gcc-O1-nobuiltin',
-                    'clang-O1-nobuiltin', 'gcc-O2-gnu89']
+                    'clang-O1-nobuiltin', 'gcc-O2-gnu89', 'gcc-O1-uchar', 'clang-O2-uchar']
         nrandom, full = 150000, True
         nslices = 16
         ncases, nexpr = 300, 32
@@ -54,6 +54,8 @@ def plan(tier, seed):
         for sl in slices:
             if tier == 'quick' and 'nobuiltin' in cc:
                 sl = [o for o in sl if o.split('.')[1] in ('clz', 'ctz', 'popcnt', 'rotl', 'rotr')]
+            if 'uchar' in cc:
+                sl = [o for o in sl if 'extend' in o or 'wrap' in o]
             if sl:
                 jobs.append(('flat', {'ops': sl, 'cc': cc, 'nrandom': nrandom, 'full_pairs': full}))
     for i in range(nexpr):
